@@ -50,7 +50,8 @@ where I: DoubleEndedIterator + ExactSizeIterator, I::Item: ZItem {
         }
     }
     match case.term {
-        0 => o.push(it.count() as u64),
+        // the cell iterators have no O(1) count(): 2^63 steps; their exact len() instead
+        0 => o.push(if case.kind == 2 { it.len() as u64 } else { it.count() as u64 }),
         1 => match it.last() { Some(x) => x.enc(o), None => o.push(0) },
         _ => {}
     }
@@ -62,12 +63,14 @@ fn colmut_idx<'a>(it: &ColMut<'a, ()>, i: usize) { *it.index(i) }
 fn run_on<V: TooDeeOps<()>>(v: &V, case: &ICase, o: &mut Vec<u64>) {
     match case.kind {
         0 => drive(v.rows(), case, o, None),
+        2 => drive(v.cells(), case, o, None),
         _ => drive(v.col(case.col as usize), case, o, Some(&col_idx)),
     }
 }
 fn run_on_mut<V: TooDeeOpsMut<()>>(v: &mut V, case: &ICase, o: &mut Vec<u64>) {
     match case.kind {
         0 => drive(v.rows_mut(), case, o, None),
+        2 => drive(v.cells_mut(), case, o, None),
         _ => drive(v.col_mut(case.col as usize), case, o, Some(&colmut_idx)),
     }
 }
@@ -110,7 +113,7 @@ fn ceil_div_2_64(d: u64) -> u64 {
 }
 
 pub fn generate(out: &mut Out, prop: u32, tier: &str, rng: &mut Rng) {
-    let kind: u64 = if prop == 8 { 0 } else { 1 };
+    let kind: u64 = match prop { 8 => 0, 10 => 2, _ => 1 };
     let mut shapes: Vec<(u64, u64)> = vec![
         (1 << 32, 1 << 31), (1 << 31, 1 << 32), (1 << 22, 1 << 22), ((1 << 21) + 1, 1 << 42), (3, 1 << 62), (1 << 62, 3),
         (1, 1 << 63), (1 << 63, 1), (1 << 16, 1 << 16), (65537, 65539), (1 << 40, 1 << 20), (5, 4), (0, 0),
@@ -136,7 +139,8 @@ pub fn generate(out: &mut Out, prop: u32, tier: &str, rng: &mut Rng) {
             let (nc, nr) = if recv == 0 { (c, r) } else {
                 let (a, b) = (win.2.saturating_sub(win.0), win.3.saturating_sub(win.1));
                 if a == 0 || b == 0 { (0, 0) } else { (a, b) } };
-            let len = nr;
+            // rows / a column: nr items; cells(): nc * nr (below 2^64 as c * r is)
+            let len = if kind == 2 { nc.saturating_mul(nr) } else { nr };
             let denom = c.max(1);
             let mut js = vec![0, 1, 2, len.saturating_sub(1), len, len.saturating_add(1), u64::MAX, u64::MAX / 2 + 1, 1 << 63,
                 ceil_div_2_64(denom), ceil_div_2_64(denom).wrapping_add(1), ceil_div_2_64(denom).wrapping_sub(1),
@@ -145,8 +149,14 @@ pub fn generate(out: &mut Out, prop: u32, tier: &str, rng: &mut Rng) {
                 js.push(((1u128 << 64) / denom as u128) as u64 + 3);
                 js.push((((1u128 << 64) / denom as u128) as u64).wrapping_mul(2).wrapping_add(1));
             }
+            if kind == 2 {
+                // row boundaries, and jumps that leave a partly consumed first / last row
+                js.extend([nc.saturating_sub(1), nc.saturating_add(1), nc.saturating_mul(2), nc.saturating_mul(2).saturating_sub(1),
+                    len.saturating_sub(nc), len.saturating_sub(nc).saturating_sub(1), len.saturating_sub(nc).saturating_add(1),
+                    len.saturating_sub(2), nc.saturating_mul(nr / 2), nc.saturating_mul(nr / 2).saturating_add(nc / 2), nr, nr.saturating_sub(1)]);
+            }
             js.sort_unstable(); js.dedup();
-            let cols_to_try: Vec<u64> = if kind == 0 { vec![0] } else { vec![0, nc / 2, nc.saturating_sub(1), nc, u64::MAX] };
+            let cols_to_try: Vec<u64> = if kind != 1 { vec![0] } else { vec![0, nc / 2, nc.saturating_sub(1), nc, u64::MAX] };
             for col in cols_to_try {
                 for mutable in [false, true] {
                     if mutable && (recv == 1 || recv == 3) { continue; }
@@ -157,6 +167,8 @@ pub fn generate(out: &mut Out, prop: u32, tier: &str, rng: &mut Rng) {
                         emit(out, prop, &mk(vec![*s, (4, 0), (0, 0), (1, 0), (4, 0)], [0, 1, 4][i % 3]));
                         // the same from a partially consumed iterator
                         if i % 2 == 0 { emit(out, prop, &mk(vec![(0, 0), (0, 0), (1, 0), (1, 0), *s, (4, 0)], [1, 0, 4][i % 3])); }
+                        // cells(): from a first and a last row each consumed to the middle
+                        if kind == 2 && i % 2 == 1 { emit(out, prop, &mk(vec![(2, nc / 2), (3, nc / 3), (4, 0), *s, (4, 0), (0, 0), (1, 0), (4, 0)], [1, 0, 4][i % 3])); }
                     }
                     for _ in 0..nrand {
                         let d = 2 + rng.below(maxdepth) as usize;
